@@ -262,6 +262,14 @@ FIXED = [
     [("vmap", [("scan", [("tag", "x", 1)], 2)], 3, False), ("vmap", [("ns", "b", [("tag", "y", 2)])], 2, True)],
     [("ns", "a", [("ns", "b", [("leaf", 5)])]), ("ns", "a", [("tag", "z", 6)])],
     [("scan", [("vmap", [("tag", "x", 1)], 2, True)], 2)],
+    # a scan body saving two namespace levels deep under a path that already holds OTHER names (saved before / by an earlier scan)
+    [("ns", "a", [("ns", "b", [("tag", "x", 1)])]), ("scan", [("ns", "a", [("ns", "b", [("tag", "y", 2)])])], 2)],
+    [("scan", [("ns", "d", [("ns", "c", [("tag", "x", 1)])])], 2), ("scan", [("ns", "d", [("ns", "c", [("tag", "y", 2)])])], 3)],
+    [("ns", "a", [("ns", "b", [("ns", "c", [("tag", "z", 3)])])]), ("scan", [("ns", "a", [("ns", "b", [("ns", "c", [("tag", "x", 4)]), ("tag", "y", 5)])])], 2)],
+    # saves only in the INNER body of a nest of scans (nothing saved directly in the outer body), plain and namespaced
+    [("scan", [("scan", [("tag", "x", 1)], 2)], 2)],
+    [("ns", "a", [("scan", [("scan", [("ns", "b", [("tag", "x", 1)])], 3)], 2)])],
+    [("scan", [("other",), ("scan", [("scan", [("tag", "y", 2)], 2)], 1)], 2)],
 ]
 
 
